@@ -333,20 +333,15 @@ func init() {
 				commentsOnly = true
 			default:
 				alpha := append(append([]string{}, c15Alphabet...), "中", "😀", "\u00e0", "\u4e05", "\u0160", "\u00a0", "\u3000", "\u2028", "\u00a0\n", "\n\u3000", "b", "\n", "\n  ", " ", "\ufeff", "x\ufeffy", "\u200b", "\x00", "\x00\n", "\n\x00", "\x01", "\x7f")
-				for k := 0; k < c15Batch; k++ {
-					n := 6 + ctx.Rng.Intn(20)
-					var b strings.Builder
-					for j := 0; j < n; j++ {
-						b.WriteString(alpha[ctx.Rng.Intn(len(alpha))])
-					}
-					add(b.String(), c15Left[ctx.Rng.Intn(len(c15Left))], c15Right[ctx.Rng.Intn(len(c15Right))])
-				}
-				// two long runs (1-4 KB) of multi-byte characters at every alignment, with line breaks to join
-				for k := 0; k < 2; k++ {
+				longRun := func() {
+					// a run of 1-9 KB of multi-byte characters at every alignment, with line breaks to join (so that it
+					// is shorter after normalisation than before), between ordinary runs: what is kept of one text run
+					// is no business of its neighbours
 					var b strings.Builder
 					b.WriteString(strings.Repeat("a", ctx.Rng.Intn(4)))
-					unit := []string{"中", "😀", "é", "日本語 ", "x\u00e0", "ab\n  cd", "<\n>"}[ctx.Rng.Intn(7)]
-					for b.Len() < 1000+ctx.Rng.Intn(3000) {
+					unit := []string{"中", "😀", "é", "日本語 ", "x\u00e0", "ab\n  cd", "<\n>", "word \n\t word", "  \n"}[ctx.Rng.Intn(9)]
+					size := []int{1000, 2040, 2049, 2100, 3000, 4090, 4097, 6000, 8190, 8200, 9000}[ctx.Rng.Intn(11)]
+					for b.Len() < size {
 						b.WriteString(unit)
 						if ctx.Rng.P(1, 40) {
 							b.WriteString(alpha[ctx.Rng.Intn(len(alpha))])
@@ -354,6 +349,18 @@ func init() {
 					}
 					add(b.String(), c15Left[ctx.Rng.Intn(len(c15Left))], c15Right[ctx.Rng.Intn(len(c15Right))])
 				}
+				for k := 0; k < c15Batch; k++ {
+					n := 6 + ctx.Rng.Intn(20)
+					var b strings.Builder
+					for j := 0; j < n; j++ {
+						b.WriteString(alpha[ctx.Rng.Intn(len(alpha))])
+					}
+					add(b.String(), c15Left[ctx.Rng.Intn(len(c15Left))], c15Right[ctx.Rng.Intn(len(c15Right))])
+					if ctx.Rng.P(1, 25) {
+						longRun()
+					}
+				}
+				longRun()
 			}
 			if commentsOnly {
 				for k, c := range c15Comments {
